@@ -33,6 +33,18 @@ func c11World(tp *Tape, env *Env) (*Plan, *Violation) {
 	} else {
 		prog = g.program()
 	}
+	if tp.Chance(25, "failedjumps") {
+		// jumps that fail (unknown node): nothing is left, so no counter may move
+		for _, n := range prog.Nodes {
+			if tp.Chance(40, "failedjumphere") && len(n.Body) > 1 {
+				at := tp.Int(1, len(n.Body), "failedjumpat")
+				body := append([]*Stmt{}, n.Body[:at]...)
+				body = append(body, &Stmt{K: sJump, Target: "Nowhere"})
+				n.Body = append(body, n.Body[at:]...)
+			}
+		}
+		env.St.probe("world_with_failing_jumps")
+	}
 	g.ensureYieldingCycles(prog)
 	layout := genLayout(tp)
 	w := World{Readers: distribute(tp, prog, layout, 2)}
@@ -135,8 +147,11 @@ func c11Exec(plan *Plan, st *Stats) *Violation {
 		if r == nil {
 			continue
 		}
-		if r.Kind == rPanic || r.Kind == rError {
-			return nil // fault-free worlds: not this property's business
+		if r.Kind == rPanic {
+			return nil // not this property's business
+		}
+		if r.Kind == rError && !strings.Contains(r.Err, "not found in dialogue") {
+			return nil // only the deliberate jumps to unknown nodes may fail in these worlds
 		}
 		for _, e := range d.h.eventsFrom(ev0) {
 			if !strings.HasPrefix(e, `fn enter(s:"`) {
